@@ -126,28 +126,29 @@ theorem reconciled_fixed {orc : Oracle} {pm : PM} (h : Reach fixed orc (fun _ _ 
 
 theorem specState_ok (orc : Oracle) (confs : List Conf) (D : List LivePath) :
     specState orc confs [] [] D = .ok ↔
-      (condStatic confs D = true ∧ condResolve orc confs D = true ∧ condConf orc confs [] D = true ∧
+      (condStatic confs [] D = true ∧ condResolve orc confs D = true ∧ condConf orc confs [] D = true ∧
         condGroups orc confs [] D = true) := by
   unfold specState
-  cases condStatic confs D <;> cases condResolve orc confs D <;> cases condConf orc confs [] D <;>
+  cases condStatic confs [] D <;> cases condResolve orc confs D <;> cases condConf orc confs [] D <;>
     cases condGroups orc confs [] D <;> simp
 
 theorem specState_ok_iff (orc : Oracle) (confs : List Conf) (D : List LivePath) :
     specState orc confs [] [] D = .ok ↔ Reconciled orc confs D := by
-  have hA : condStatic confs D = true ↔ ∀ c ∈ confs, c.regex = false → ∃ p ∈ D, p.name = c.name := by
+  have hA : condStatic confs [] D = true ↔ ∀ c ∈ confs, c.regex = false → ∃ p ∈ D, p.name = c.name := by
     unfold condStatic
     rw [List.all_eq_true]
     constructor
     · intro h c hc hs
       have := h c hc
-      rw [hs, Bool.false_or] at this
+      rw [hs, Bool.false_or, List.contains_nil, Bool.or_false] at this
       exact hasPath_true this
     · intro h c hc
       cases hs : c.regex with
       | true => rfl
       | false =>
         obtain ⟨p, hp, hn⟩ := h c hc hs
-        exact List.any_eq_true.mpr ⟨p, hp, by simp [hn]⟩
+        have : hasPath D c.name = true := List.any_eq_true.mpr ⟨p, hp, by simp [hn]⟩
+        rw [this]; rfl
   rw [specState_ok]
   constructor
   · intro ⟨h1, _, h3, h4⟩
